@@ -178,7 +178,7 @@ def check_case(case, res=None):
 
 
 def plan(tier):
-    return [{"n": 60, "depth": 3, "opts": 4}] * 16 if tier == "quick" else [{"n": 700, "depth": 3, "opts": 10}] * 32 + [{"n": 250, "depth": 5, "opts": 10}] * 16
+    return [{"n": 60, "depth": 3, "opts": 4}] * 16 if tier == "quick" else [{"n": 300, "depth": 3, "opts": 8}] * 32 + [{"n": 100, "depth": 5, "opts": 8}] * 16
 
 
 def run_shard(spec, seed, res, only_bucket=None):
